@@ -17,7 +17,7 @@ import os
 sys.path.insert(0, os.path.dirname(os.path.abspath(__file__)))
 import dlib  # noqa: E402
 
-from traits.api import Any, CInt, HasTraits, Int, List, TraitError  # noqa: E402
+from traits.api import Any, CInt, HasTraits, Int, List, TraitError, TraitType  # noqa: E402
 from traits.trait_list_object import TraitList, TraitListObject  # noqa: E402
 
 EXN = ["IndexError", "ValueError", "TraitError", "TypeError"]
@@ -61,8 +61,28 @@ def v_cint(x):
         raise TraitError("not convertible")
 
 
-VALIDATORS = {"VAll": None, "VInt": v_int, "VCInt": v_cint}
-INNER = {"VAll": Any, "VInt": Int, "VCInt": CInt}
+def v_inc(x):
+    """a non-idempotent conversion: validating twice would be visible"""
+    if type(x) is int and 0 <= x < 90:
+        return x + 1
+    raise TraitError("not in 0..89")
+
+
+class IncTrait(TraitType):
+    def validate(self, object, name, value):
+        if type(value) is int and 0 <= value < 90:
+            return value + 1
+        self.error(object, name, value)
+
+
+VALIDATORS = {"VAll": None, "VInt": v_int, "VCInt": v_cint, "VInc": v_inc}
+INNER = {"VAll": Any, "VInt": Int, "VCInt": CInt, "VInc": IncTrait}
+
+
+def raw_init(vk, a):
+    """the raw value whose validated form is the atom a (initial contents are validated too)"""
+    return a - 1 if vk == "VInc" else val(a)
+
 _classes = {}
 
 
@@ -77,7 +97,7 @@ def owner_class(vk, minlen, maxlen):
 
 
 def make(case):
-    init = [val(a) for a in case["init"]]
+    init = [raw_init(case["vk"], a) for a in case["init"]]
     if case["target"] == "plain":
         return None, TraitList(init, item_validator=VALIDATORS[case["vk"]])
     owner = owner_class(case["vk"], case.get("minlen", 0), case.get("maxlen"))()
@@ -134,7 +154,10 @@ def apply_op(tl, op):
     elif k == "Reverse":
         tl.reverse()
     elif k == "Sort":
-        if all(type(x) is int for x in tl):
+        m = op[2] if len(op) > 2 else 0
+        if m:
+            tl.sort(key=lambda v: atom(v) % m, reverse=bool(op[1]))
+        elif all(type(x) is int for x in tl):
             tl.sort(reverse=bool(op[1]))
         else:
             tl.sort(key=atom, reverse=bool(op[1]))
@@ -145,13 +168,26 @@ def apply_op(tl, op):
     return None
 
 
-def run_ops(tl, ops):
+def run_ops(tl, ops, owner=None, channel="notifier"):
+    """channel: how the change events are received -- "notifier": a callable in tl.notifiers;
+    "observe": an observe() handler on "l:items" (ListChangeEvent built by
+    observation/_list_change_event.list_event_factory); "items": a legacy on_trait_change handler on
+    "l_items" (TraitListEvent fired by TraitListObject.notifier)."""
     events = []
 
     def rec(trait_list, index, removed, added):
+        if trait_list is not tl:
+            index = "not-this-list"
         events.append([enc_index(index), [atom(v) for v in removed], [atom(v) for v in added]])
 
-    tl.notifiers.append(rec)
+    if channel == "notifier" or owner is None:
+        tl.notifiers.append(rec)
+    elif channel == "observe":
+        owner.observe(lambda ev: rec(ev.object, ev.index, ev.removed, ev.added), "l:items")
+    elif channel == "items":
+        owner.on_trait_change(lambda ev: rec(tl, ev.index, ev.removed, ev.added), "l_items")
+    else:
+        raise ValueError(channel)
     hist = []
     for op in ops:
         del events[:]
@@ -166,7 +202,7 @@ def run_ops(tl, ops):
 
 def run_case(case):
     owner, tl = make(case)
-    return run_ops(tl, case["ops"])
+    return run_ops(tl, case["ops"], owner, case.get("channel", "notifier"))
 
 
 # ---- canonical integer encoding of an observation (same as C05/Corr.v enc_obs) ----
